@@ -21,7 +21,6 @@ Utility functions and classes used throughout package.
 """
 
 import os
-import math
 import ctypes
 import shutil
 import platform
@@ -173,25 +172,18 @@ def normalize_piece_length(piece_length: int) -> int:
         Piece length is improper value.
     """
     if isinstance(piece_length, str):
-        if piece_length.isnumeric():
+        if piece_length.isascii() and piece_length.isdecimal():
             piece_length = int(piece_length)
         else:
             raise PieceLengthValueError(piece_length)
 
-    if piece_length > (1 << 14):
-        if 2**math.log2(piece_length) == piece_length:
-            return piece_length
-        raise PieceLengthValueError(piece_length)
-
     if 13 < piece_length < 26:
         return 2**piece_length
-    if piece_length <= 13:
-        raise PieceLengthValueError(piece_length)
 
-    log = int(math.log2(piece_length))
-    if 2**log == piece_length:
+    # exact integer test: a power of 2 that is at least 16 KiB
+    if piece_length >= (1 << 14) and piece_length & (piece_length - 1) == 0:
         return piece_length
-    raise PieceLengthValueError
+    raise PieceLengthValueError(piece_length)
 
 
 def get_piece_length(size: int) -> int:
